@@ -177,9 +177,15 @@ def gen_tool_input(rng, d, idx):
                         f.write("%g\t%s\n" % (p, " ".join(x)))
             f.write("\n\\end\\\n")
         else:
-            for g in sections:
-                for x in g:
-                    f.write("%s\t%d\n" % (" ".join(x), rng.range(1, 99)))
+            # count files: the orders are mixed (most count tools emit them that way) in 3 of 4 inputs, and a few lines have an
+            # empty n-gram field (a line starting with the tab)
+            lines = ["%s\t%d\n" % (" ".join(x), rng.range(1, 99)) for g in sections for x in g]
+            if rng.chance(3, 4):
+                rng.shuffle(lines)
+            if rng.chance(1, 3):
+                for _ in range(rng.range(1, 3)):
+                    lines.insert(rng.below(len(lines) + 1), "\t%d\n" % rng.range(1, 99))
+            f.write("".join(lines))
     nsent = rng.range(1, 4)
     vocab = os.path.join(d, "vocab%d.txt" % idx)
     phrase_vocab = os.path.join(d, "pvocab%d.txt" % idx)
@@ -254,6 +260,29 @@ def read_outputs(prefix, n):
     return res
 
 
+def order_independence(stock, base_args, model, vocab, ref, nout, multi, d):
+    """Whether an n-gram is kept, and for which outputs, is a function of that n-gram alone: the single-threaded filter applied to
+    the same count lines in reverse order must keep the same lines (as a multiset) per output.  (It is what makes the result
+    independent of batch boundaries and of which worker filters which batch.)"""
+    rev = os.path.join(d, "reversed.raw")
+    lines = open(model, "rb").read().split(b"\n")
+    if lines and lines[-1] == b"":
+        lines.pop()
+    open(rev, "wb").write(b"\n".join(reversed(lines)) + b"\n")
+    outp = os.path.join(d, "rev.")
+    for f in os.listdir(d):
+        if f.startswith("rev."):
+            os.remove(os.path.join(d, f))
+    cmd = "exec %s %s threads:1 model:%s %s < %s" % (stock, " ".join(base_args), rev, outp, vocab)
+    rc, _, _ = vlib.sh(["timeout", "60", "sh", "-c", cmd], timeout=70)
+    got = read_outputs(outp, nout) if multi else [open(outp, "rb").read() if os.path.exists(outp) else None]
+    for i, (a, b) in enumerate(zip(got, ref)):
+        if a is None or b is None or sorted(a.split(b"\n")) != sorted(b.split(b"\n")):
+            la, lb = (len(a.split(b"\n")) - 1 if a is not None else None), (len(b.split(b"\n")) - 1 if b is not None else None)
+            return "threads:1 keeps %s lines for output %d from the count file and %s from the same lines in reverse order: the verdict for an n-gram depends on the lines before it" % (lb, i, la)
+    return None
+
+
 def tool_checks(ctx, stock, jitter, n_inputs):
     rng = ctx.rng
     d = os.path.join(ctx.scratch, "tool")
@@ -265,8 +294,10 @@ def tool_checks(ctx, stock, jitter, n_inputs):
             break
         inp = gen_tool_input(rng, d, idx)
         modes = [["single"], ["union"], ["multiple"], ["single", "context"], ["union", "context"], ["multiple", "context"],
-                 ["union", "phrase"], ["multiple", "phrase"], ["multiple", "phrase", "context"]]
+                 ["union", "phrase"], ["multiple", "phrase"], ["multiple", "phrase", "context"], ["union", "phrase", "context"]]
         rng.shuffle(modes)
+        if inp["fmt"] == "raw":      # filters with scratch state + empty token ranges (context of a unigram): always with mixed-order counts
+            modes.sort(key=lambda m: 0 if ("phrase" in m and "context" in m) else 1)
         for mode in modes[:ctx.pick(3, 9)]:
             if len(fails) >= 3:
                 break
@@ -287,6 +318,18 @@ def tool_checks(ctx, stock, jitter, n_inputs):
             ref = read_outputs(ref_prefix, nout) if multi else [open(ref_prefix, "rb").read() if os.path.exists(ref_prefix) else None]
             key = "%s:%s" % (inp["fmt"], "+".join(mode))
             dist[key] = dist.get(key, 0) + 1
+            if inp["fmt"] == "raw" and rc1 == 0:
+                m = order_independence(stock, base_args, inp["model"], vocab, ref, nout, multi, d)
+                runs += 1
+                if m:
+                    keep = os.path.join(ctx.replay_dir, "files-%d-%d" % (ctx.seed, len(fails)))
+                    os.makedirs(keep, exist_ok=True)
+                    shutil.copy(inp["model"], keep)
+                    shutil.copy(vocab, keep)
+                    fails.append(("filter:raw:%s:verdict-depends-on-line-order" % "+".join(mode), m,
+                                  {"reference_cmd": cmdref.replace(d, keep).replace(stock, "bin/filter"), "files": keep,
+                                   "how": "run the reference command on the count file and on the same lines in reverse order (threads:1); compare the kept lines as multisets"}))
+                    continue
             secs = inp["sizes"]
             bs = sorted(set([1, 2, 3, 5000, 25000] + [max(1, s + dlt) for s in secs for dlt in (-1, 0, 1) if s + dlt >= 1]))
             ks = list(range(2, 9))
@@ -361,10 +404,14 @@ def big_tool_checks(ctx, stock, jitter):
         for w in ["<unk>", "<s>", "</s>"] + words:
             f.write("-%d.%03d\t%s\t-0.5\n" % (rng.range(1, 5), rng.below(1000), w))
         f.write("\n\\2-grams:\n")
-        for _ in range(nb):
+        for i in range(nb):
             a, b = words[rng.below(3000)], words[rng.below(nw)]
             f.write("-0.%03d\t%s %s\n" % (rng.below(1000), a, b))
             g.write("%s %s\t%d\n" % (a, b, rng.range(1, 99)))
+            if i % 5 == 0:       # the count file mixes the orders: unigrams and trigrams between the bigrams
+                g.write("%s\t%d\n" % (words[rng.below(nw)], rng.range(1, 99)))
+            elif i % 7 == 0:
+                g.write("%s %s %s\t%d\n" % (a, b, words[rng.below(3000)], rng.range(1, 99)))
         f.write("\n\\end\\\n")
     nsent = 4
     vocab, pvocab = os.path.join(d, "vocab.txt"), os.path.join(d, "pvocab.txt")
@@ -373,12 +420,13 @@ def big_tool_checks(ctx, stock, jitter):
             ws = [words[rng.below(3000)] for _ in range(400)]
             f.write(" ".join(ws) + "\n")
             pf.write("\t".join(" ".join(ws[i:i + 2]) for i in range(0, len(ws), 2)) + "\n")
-    modes = [(["single"], "arpa"), (["union", "context"], "arpa"), (["multiple", "context"], "arpa"), (["union", "phrase", "context"], "arpa"),
-             (["multiple", "phrase", "context"], "arpa"), (["union"], "raw"), (["multiple", "context"], "raw"), (["union", "phrase"], "arpa"),
+    modes = [(["single"], "arpa"), (["union", "context"], "arpa"), (["multiple", "context"], "arpa"), (["union", "phrase", "context"], "raw"),
+             (["multiple", "phrase", "context"], "raw"), (["union", "phrase", "context"], "arpa"), (["multiple", "phrase", "context"], "arpa"),
+             (["union"], "raw"), (["multiple", "context"], "raw"), (["union", "phrase"], "arpa"),
              (["multiple"], "arpa"), (["single", "context"], "raw"), (["union", "context"], "raw")]
     configs = [(2, 1000), (4, 200), (8, 50), (3, 7), (4, 25000), (2, 5000), (8, 1000), (5, 100), (4, None), (2, None)]
     fails, runs = [], 0
-    for mode, fmt in modes[:ctx.pick(8, 11)]:
+    for mode, fmt in modes[:ctx.pick(9, 13)]:
         if len(fails) >= 2:
             break
         model = arpa if fmt == "arpa" else raw
